@@ -136,6 +136,7 @@ class Engine:
         self.label = ""
         self.events = []            # effect log of the current path (ghost)
         self.ghost_hits = set()
+        self.vacuous_calls = set()
         self.stats = {"paths": 0, "feas_checks": 0}
 
     # ----------------------------------------------------------------------------------
@@ -517,6 +518,38 @@ class Engine:
         tag = cache.get(id(node), "#?")
         return tag if len(self.frames) <= 1 else f"{fr.qual}.{tag}"
 
+    PURE_METHODS = {"get", "items", "keys", "values", "copy", "format", "split", "strip", "lstrip", "rstrip", "join", "startswith", "endswith",
+                    "index", "count", "reshape", "casefold", "lower", "upper", "replace", "isdigit", "predecessors", "neighbors", "all", "any", "sum",
+                    "info", "debug", "warning", "error"}
+
+    def impure_call(self, call):
+        """may this call modify objects reachable from its receiver / arguments?  (used to decide what a loop havocs)
+        Pure: builtins and modelled library functions, methods in PURE_METHODS, repository functions/methods all of whose
+        contracts in the registry have an empty `modifies`.  Everything else is treated as impure (conservative)."""
+        f = call.func
+        if isinstance(f, ast.Name):
+            name = f.id
+            if ("builtins." + name) in self.prelude or name in BUILTIN_EXC:
+                return False
+            mod = self.frame.mod
+            if name in mod.imports and not source.is_repo_module(mod.imports[name].rsplit(".", 1)[0]):
+                return False
+        elif isinstance(f, ast.Attribute):
+            name = f.attr
+            if name in MUTATORS:
+                return True
+            if name in self.PURE_METHODS:
+                return False
+            r = root_name(f.value)
+            if r is not None and r not in self.frame.env and r in self.frame.mod.imports and not source.is_repo_module(self.frame.mod.imports[r]):
+                return False        # np.xxx, nx.xxx, random.xxx, ... (library call; the prelude models write through paths explicitly)
+        else:
+            return True
+        cs = [c for k, c in self.registry.items() if k.split(":")[1].split(".")[-1] == name]
+        if cs and all(not c.modifies for c in cs):
+            return False
+        return True
+
     def static_loop_ordinal(self, fr, node):
         fnode = fr.mod.functions.get(fr.qual)
         if fnode is None:
@@ -598,7 +631,7 @@ class Engine:
         for name, inv in spec.invariants:
             self.oblige("inv.init", f"loop{ordinal}.{name}", self.spec_eval(inv, env, old_env=self.entry_env0, extra={"entry": entry_env}), node)
         # 2. arbitrary iteration state: havoc everything the body may assign
-        targets = assigned_names(node.body) | (names_in_target(node.target) if seq is not None else set())
+        targets = assigned_names(node.body, self.impure_call) | (names_in_target(node.target) if seq is not None else set())
         for nm in sorted(targets):
             if nm in env and nm != kname:
                 env[nm] = self.havoc_like(env[nm], nm)
@@ -1287,8 +1320,10 @@ class Engine:
 
     def sym_comprehension(self, node):
         """[f(x) for x in xs] over a symbolic list with no filter: a Lambda-defined SList"""
-        if len(node.generators) != 1 or node.generators[0].ifs:
-            raise Unsupported("comprehension over symbolic data with filter / nesting")
+        if len(node.generators) == 1 and node.generators[0].ifs:
+            return self.sym_filter_comprehension(node)
+        if len(node.generators) != 1:
+            raise Unsupported("comprehension over symbolic data with nesting")
         g = node.generators[0]
         xs = self.as_sequence(self.ev(g.iter))
         i = z3.Int(f"_c{node.lineno}_{node.col_offset}")
@@ -1302,6 +1337,37 @@ class Engine:
         self.frame.env.update(saved)
         t = type_of(val)
         return SList(t, xs.n, [z3.Lambda([i], c) for c in t.flat(val)])
+
+    def sym_filter_comprehension(self, node):
+        """[x for x in xs if cond(x)]: a duplicate-free-as-xs sublist; characterised by membership (ghost position function)"""
+        g = node.generators[0]
+        if not (isinstance(node.elt, ast.Name) and isinstance(g.target, ast.Name) and node.elt.id == g.target.id):
+            raise Unsupported("filter comprehension whose element is not the loop variable")
+        xs = self.as_sequence(self.ev(g.iter))
+        if len(xs.t.sorts()) != 1:
+            raise Unsupported("filter comprehension over structured elements")
+        srt = xs.t.sorts()[0]
+        x = z3.Const(f"_fx{node.lineno}", srt)
+        saved = dict(self.frame.env)
+        self.assign(g.target, x)
+        n_dec = len(self.decisions)
+        conds = [truth(self.ev(c)) for c in g.ifs]
+        if len(self.decisions) != n_dec:
+            raise Unsupported("branching inside a comprehension filter")
+        self.frame.env.clear()
+        self.frame.env.update(saved)
+        cond = b_and(*conds)
+        tag = f"filt{self.counters.get('filt', 0)}"
+        self.counters["filt"] = self.counters.get("filt", 0) + 1
+        n = z3.Int(f"{tag}.n")
+        arr = z3.Const(f"{tag}.arr", z3.ArraySort(z3.IntSort(), srt))
+        pos = z3.Function(f"{tag}.pos", srt, z3.IntSort())
+        i, j = z3.Int("_fi2"), z3.Int("_fj2")
+        inxs = z3.Exists([j], z3.And(0 <= j, j < xs.n, xs.comps[0][j] == x))
+        self.assume(n >= 0)
+        self.assume(z3.ForAll([i], z3.Implies(z3.And(0 <= i, i < n), z3.And(z3.substitute(B(cond), (x, arr[i])), z3.substitute(inxs, (x, arr[i])), pos(arr[i]) == i))))
+        self.assume(z3.ForAll([x], z3.Implies(z3.And(inxs, B(cond)), z3.And(0 <= pos(x), pos(x) < n, arr[pos(x)] == x))))
+        return SList(xs.t, n, [arr])
 
     # ---- calls
     def ev_Call(self, node):
@@ -1410,6 +1476,29 @@ class Engine:
         contract = self.registry.get(key)
         if contract is not None and not contract.inline:
             return self.apply_contract(contract, fr, args, kwargs, node, self_path)
+        if fr.qual in mod.classes and fr.qual not in mod.functions:
+            # constructor call: a fresh record of that class, initialised by running __init__ at the call site
+            initq = f"{fr.qual}.__init__"
+            obj = Rec(f"{fr.module}:{fr.qual}", {})
+            if initq not in mod.functions:
+                return obj
+            policy = self.contract.inline_callees if self.contract is not None else ()
+            if f"{fr.module}:{initq}" not in policy:
+                raise Unsupported(f"constructor {key} needs an inline permission for {initq}")
+            self.inlined.add(f"{fr.module}:{initq}")
+            fnode = mod.functions[initq]
+            env = {}
+            self.bind_args(fnode.args, [obj] + list(args), kwargs, env, mod)
+            self.frames.append(Frame(mod, initq, env))
+            depth = len(self.frames)
+            try:
+                try:
+                    self.ex_block(fnode.body)
+                except ReturnEx:
+                    pass
+                return self.frames[depth - 1].env[fnode.args.args[0].arg]
+            finally:
+                del self.frames[depth - 1:]
         if fr.qual not in mod.functions:
             raise Unsupported(f"no contract and no function body for {key}")
         policy = self.contract.inline_callees if self.contract is not None else ()
@@ -1423,14 +1512,18 @@ class Engine:
             raise Unsupported("inline depth")
         self.frames.append(Frame(mod, fr.qual, env))
         depth = len(self.frames)
+        result = None
         try:
             try:
                 self.ex_block(fnode.body)
             except ReturnEx as r:
-                return r.value
-            return None
+                result = r.value
+            final_self = self.frames[depth - 1].env.get(fnode.args.args[0].arg) if (self_path is not None and fnode.args.args) else None
         finally:
             del self.frames[depth - 1:]
+        if self_path is not None and final_self is not None:
+            self.write_path(self_path, final_self)       # the inlined method may have mutated its receiver
+        return result
 
     def call_method(self, bm, args, kwargs, node):
         from .methods import call_method
@@ -1485,8 +1578,12 @@ class Engine:
             result = self.fresh(f"ret_{fr.qual.split('.')[-1]}", contract.result)
         for gname, gtype in contract.exposes.items():
             env[gname] = self.fresh(f"ghost_{gname}", gtype)
+        feasible_before = self.feasible(z3.BoolVal(True))
         for name, ens in list(contract.ensures) + list(contract.defines):
             self.assume(self.spec_eval(ens, dict(env, result=result), old_env=pre_env, contract=contract))
+        if feasible_before and not self.feasible(z3.BoolVal(True)):
+            # the callee's postcondition contradicts what is known at this call site: every later obligation would be vacuous
+            self.vacuous_calls.add(f"{site}: the assumed postcondition of {fr.qual} is unsatisfiable here (missing `modifies`?)")
         # write back modified arguments to the caller's objects
         for root in sorted({p.split(".")[0] for p in contract.modifies}):
             if root == names[0] and self_path is not None:
@@ -1586,8 +1683,20 @@ def alias_roots(stmts):
     return m
 
 
-def assigned_names(stmts):
+def assigned_names(stmts, impure=None):
     out = _assigned_names(stmts)
+    if impure is not None:
+        for s in stmts:
+            for n in ast.walk(s):
+                if isinstance(n, ast.Call) and impure(n):
+                    if isinstance(n.func, ast.Attribute):
+                        r = root_name(n.func.value)
+                        if r:
+                            out.add(r)
+                    for a in list(n.args) + [k.value for k in n.keywords]:
+                        r = root_name(a) if is_path(a) else None
+                        if r:
+                            out.add(r)
     amap = alias_roots(stmts)
     changed = True
     while changed:
